@@ -99,6 +99,19 @@ func main() {
 			descs = append(descs, &d)
 			id++
 		}
+		// scenarios added later: after the random pairs, which keep their ids (a pair's id selects its random stream)
+		for _, f := range lateScenarios() {
+			f := f
+			d := genPair(*seed, id, &f)
+			descs = append(descs, &d)
+			id++
+		}
+		for i := 0; i < 6+*n/25; i++ {
+			f := extraScenario(*seed, i)
+			d := genPair(*seed, id, &f)
+			descs = append(descs, &d)
+			id++
+		}
 		for i := 0; i < 6+*n/40; i++ {
 			longs = append(longs, genLong(*seed, i))
 		}
@@ -154,8 +167,31 @@ func main() {
 			rj.Errors = append(rj.Errors, fmt.Sprintf("pair %d: %s", p.ID, res.WriteErrors[0]))
 			continue
 		}
+		if p.Lag > 0 {
+			// how the held client went (not demanded: the oracle judges what was delivered)
+			switch {
+			case res.LagHeldClient < 0:
+				rj.Distribution["lag:no-client-delivered"]++
+			case !res.LagBySegments:
+				rj.Distribution["lag:released-at-writer-end"]++
+			default:
+				rj.Distribution["lag:held-until-the-next-segment-left-the-playlist"]++
+				for _, cr := range res.Clients {
+					if cr.Attempt == res.LagHeldClient {
+						oc := "running"
+						if cr.Outcome != "running" {
+							oc = errClass(cr.Outcome)
+						}
+						rj.Distribution["lag:held-client-end:"+oc]++
+					}
+				}
+			}
+		}
 		fails := checkPair(res, st)
 		for _, f := range fails {
+			if os.Getenv("E2E_PRINT_FAILS") != "" {
+				fmt.Printf("pair %d %s: %s\n", p.ID, p.Fixed, f.Signature)
+			}
 			if b, ok := best[f.Signature]; !ok || f.size < b.size {
 				best[f.Signature] = f
 			}
@@ -257,8 +293,19 @@ func bucket(n int) string {
 func dumpPair(res *pairResult) {
 	p := res.Desc
 	fmt.Printf("pair %d %s %v target %s attach %d media %d writes %d enc-errors %v\n", p.ID, variantName(p.H.Variant), kindsOf(&p.H), p.Target, p.AttachMs, p.MediaMs, len(p.H.Ops), res.EncErrors)
+	for i, l := range res.ParamLine {
+		if len(l) > 1 {
+			fmt.Printf(" parameter line of track %d (write, write at which it takes effect, parameters): %v\n", i, l)
+		}
+	}
 	for _, cr := range res.Clients {
 		fmt.Printf(" client %d attached %d ms tracks=%v outcome=%q decode-errors=%v\n", cr.Attempt, cr.AttachMs, cr.TracksReported, cr.Outcome, cr.DecodeErrors)
+		if p.H.Variant != 1 && cr.TracksReported {
+			for i := range p.H.Tracks {
+				lo, hi, why := paramWindow(&p.H, res, cr, i)
+				fmt.Printf("   parameter window of muxer track %d: writes %d..%d %s\n", i, lo, hi, why)
+			}
+		}
 		for _, e := range cr.Reqs {
 			fmt.Printf("   req %d %s?%s %s -> %d (%d bytes)\n", e.Seq, e.Path, e.Query, e.Range, e.Status, len(e.Body))
 			if strings.HasSuffix(e.Path, ".m3u8") && os.Getenv("E2E_DUMP_PLAYLISTS") != "" {
